@@ -7,7 +7,8 @@
 From Coq Require Import NArith List Bool.
 From StunV Require Import Base.ListAux Base.Bytes Base.Outcome Base.Slice
   Model.Message Model.Crc32 Model.Attrs Model.Ops Model.Abstract
-  Proofs.SetterProofs Proofs.Crc32Proofs Proofs.BurstProofs Proofs.GetterProofs Proofs.FingerprintProofs.
+  Proofs.SetterProofs Proofs.Crc32Proofs Proofs.BurstProofs Proofs.GetterProofs Proofs.FingerprintProofs
+  Proofs.DecodeProofs Proofs.TrailerProofs.
 Import ListNotations.
 Open Scope N_scope.
 
@@ -80,3 +81,30 @@ Example C05_trailing_bytes_refuted_on_pinned_tree :
   match fp_add_old m with Ok m' => fp_check (fst (decode (set_raw new_msg (slice_of (bytes (m_raw m')) [])))) = Err E_MISMATCH | _ => False end /\
   match fp_add m with Ok m' => fp_check (fst (decode (set_raw new_msg (slice_of (bytes (m_raw m')) [])))) = Ok tt | _ => False end.
 Proof. vm_compute. split; reflexivity. Qed.
+
+(* Bytes behind the declared length are not attributes.  Whatever follows the 20 + Length bytes of a
+   datagram - eight bytes that would be a correct FINGERPRINT of it included - Decode gives the same
+   verdict, the same header fields and the same attribute list as without them: a message that carries
+   no FINGERPRINT inside its declared length carries none. *)
+Theorem C05_trailer_is_not_an_attribute : forall m1 m2 t, wf (m_raw m1) -> wf (m_raw m2) ->
+  bytes (m_raw m2) = bytes (m_raw m1) ++ t ->
+  20 + rd16 (drop 2 (bytes (m_raw m1))) <= lenN (bytes (m_raw m1)) ->
+  (snd (decode m1) = Ok tt <-> snd (decode m2) = Ok tt) /\
+  (forall m1' m2', decode m1 = (m1', Ok tt) -> decode m2 = (m2', Ok tt) ->
+     m_meth m2' = m_meth m1' /\ m_class m2' = m_class m1' /\ m_length m2' = m_length m1' /\
+     m_tid m2' = m_tid m1' /\ map proj (m_attrs m2') = map proj (m_attrs m1')).
+Proof. exact decode_trailer. Qed.
+Print Assumptions C05_trailer_is_not_an_attribute.
+
+(* non-vacuity: a binding request with one SOFTWARE attribute, followed by the eight bytes of a
+   FINGERPRINT computed over it; the decode succeeds with ONE attribute and the fingerprint check
+   reports that there is none *)
+Example C05_trailer_nonvacuous :
+  let raw := [0;1;0;8; 0x21;0x12;0xA4;0x42; 1;2;3;4;5;6;7;8;9;10;11;12; 0x80;0x22;0;1; 65;0;0;0] in
+  let v := N.lxor (crc32 raw) 0x5354554e in
+  let t := [0x80; 0x28; 0; 4] ++ be32 v in
+  let m := fst (decode (set_raw new_msg (slice_of (raw ++ t) []))) in
+  (20 + rd16 (drop 2 raw) <=? lenN raw) = true /\
+  snd (decode (set_raw new_msg (slice_of (raw ++ t) []))) = Ok tt /\
+  lenN (m_attrs m) = 1 /\ fp_check m <> Ok tt.
+Proof. vm_compute. repeat split. discriminate. Qed.
